@@ -31,7 +31,7 @@ ASSUMPTIONS = [
 ]
 DECIDING = ['tcpcl.session:Messenger.merge_session_params', 'tcpcl.session:match_id', 'tcpcl.session:Messenger.merge_contact_params',
             'tcpcl.session:Connection.secure']
-REQUIRED_OBS = ['rows', 'tls_attempted', 'established_secure', 'contact_failures', 'policy_closures', 'post_failure_probes']
+REQUIRED_OBS = ['rows', 'tls_attempted', 'established_secure', 'contact_failures', 'policy_closures', 'post_failure_probes', 'cleartext_sess_init_probes']
 
 PEER_IP = '10.0.0.2'
 OTHER_IP = '10.9.9.9'
